@@ -499,6 +499,43 @@ func tables(repo, out, js string) {
 	b.WriteString("end Kust.Gen\n")
 	writeIfChanged(filepath.Join(out, "Lists.lean"), b.String())
 
+	// ---- annotation-key string constants of the build code (C07: every one must be stripped or reviewed)
+	{
+		if err := l.load("api", "./konfig", "./internal/accumulator", "./resmap", "./krusty", "./internal/plugins/builtinhelpers"); err != nil {
+			fail(err.Error())
+		}
+		if err := l.load("kyaml", "./kio", "./fn/runtime/runtimeutil", "./comments"); err != nil {
+			fail(err.Error())
+		}
+		prefixes := []string{"internal.config.kubernetes.io/", "config.kubernetes.io/", "config.k8s.io/", "alpha.config.kubernetes.io/", "kustomize.config.k8s.io/"}
+		set := map[string]bool{}
+		for _, p := range l.pkgs {
+			sc := p.Types.Scope()
+			for _, n := range sc.Names() {
+				c, ok := sc.Lookup(n).(*types.Const)
+				if !ok || c.Val().Kind() != constant.String {
+					continue
+				}
+				v := constant.StringVal(c.Val())
+				for _, pre := range prefixes {
+					if strings.HasPrefix(v, pre) && len(v) > len(pre) {
+						set[v] = true
+					}
+				}
+			}
+		}
+		var ks []string
+		for k := range set {
+			ks = append(ks, k)
+		}
+		sort.Strings(ks)
+		all["annotationKeyConsts"] = ks
+		var fb strings.Builder
+		fb.WriteString(header("string constants of api/… and kyaml/… packages on the build path"))
+		fb.WriteString("def annotationKeyConsts : List String := " + leanStrList(ks) + "\n\nend Kust.Gen\n")
+		writeIfChanged(filepath.Join(out, "Facts.lean"), fb.String())
+	}
+
 	if js != "" {
 		keys := make([]string, 0, len(all))
 		for k := range all {
